@@ -163,7 +163,11 @@ func execC02(x *Ctx, sc *wire.Scenario) *wire.Result {
 			res.Counters["note:typeahead_failure_attributed_to_C05"]++
 			continue
 		}
-		if _, ok := check(out2, "type-ahead"); !ok {
+		if msg, ok := check(out2, "type-ahead"); !ok {
+			if sigOf() == "identity:ascii" {
+				// plain ASCII text survives every chunking on this tree: losing part of it is this property's business too
+				return violation(res, "MISMATCH", "C02.identity-typeahead", "identity:ascii:type-ahead", msg)
+			}
 			res.Counters["note:typeahead_failure_attributed_to_C05"]++
 		}
 	}
